@@ -158,6 +158,17 @@ class Translator:
             return ("(match %s with\n   | Ok _ => %s\n   | Err %s => if pyerr_eqb %s %s then %s else Err %s\n   end)" % (
                 self.expr(s.body[0].value, ctx), self.block(rest, ctx), t, t, ERRMAP[hname],
                 self.block(list(h.body) + rest, ctx), t))
+        if hname in ERRMAP and len(s.body) == 1 and isinstance(s.body[0], ast.Assign) \
+                and len(s.body[0].targets) == 1 and isinstance(s.body[0].targets[0], ast.Name):
+            # try: x = e  except E: handler   (x is bound only on the Ok path; a handler that falls
+            # through would read an unbound name, so the handler must end in raise)
+            if not (h.body and isinstance(h.body[-1], ast.Raise)):
+                raise Unmodelled("try shape: handler of an assignment body does not raise")
+            nm = s.body[0].targets[0].id
+            t = self.tmp()
+            return ("(match %s with\n   | Ok v_%s => %s\n   | Err %s => if pyerr_eqb %s %s then %s else Err %s\n   end)" % (
+                self.expr(s.body[0].value, ctx), nm, self.block(rest, dict(ctx, vars=ctx["vars"] | {nm})),
+                t, t, ERRMAP[hname], self.block(list(h.body), ctx), t))
         raise Unmodelled("try shape")
 
     # ------------------------------------------------------------ expressions
